@@ -80,7 +80,7 @@ def check_pairs(eng, run, data, res, mkcase, want_parsed=True):
         r = eng.check3(z3.Not(g))
         if r == 'sat':
             res['refuted'] += 1
-            mkcase("frame grammar violated", model=eng.solver.model())
+            mkcase("frame grammar violated", model=eng.model())
             return
         if r != 'unsat':
             res['inconclusive'].append("grammar: unknown")
@@ -244,7 +244,7 @@ def run_job(spec):
 
         def mkcase(why, model=None, want_bad_crc=None):
             if model is None and eng.check3() == 'sat':
-                model = eng.solver.model()
+                model = eng.model()
             if model is None:
                 res['harness_errors'].append(f"{spec}: no model for '{why}'")
                 return
@@ -258,7 +258,7 @@ def run_job(spec):
         check_pairs(eng, run, data, res, mkcase)
         if run.pairs() and wit < 4 and kind != 'sock' and eng.check3() == 'sat':
             wit += 1
-            res['witnesses'].append({'kind': 'stream', 'data': concretise(eng.solver.model()).hex(),
+            res['witnesses'].append({'kind': 'stream', 'data': concretise(eng.model()).hex(),
                                      'mode': spec[2] if kind in ('free', 'big', 'twin') else mode,
                                      'faults': {str(c): k for c, k in run.stream.fault_seen}, 'checks': ['c01']})
     res.absorb_engine(eng)
